@@ -1,4 +1,6 @@
 pub mod c01;
+pub mod c02;
+pub mod c03;
 pub mod c10;
 
 use crate::engine::Prop;
@@ -6,6 +8,8 @@ use crate::engine::Prop;
 pub fn get(id: &str) -> Option<Box<dyn Prop>> {
   match id {
     "C01" => Some(Box::new(c01::C01)),
+    "C02" => Some(Box::new(c02::C02)),
+    "C03" => Some(Box::new(c03::C03)),
     "C10" => Some(Box::new(c10::C10)),
     _ => None,
   }
